@@ -1,6 +1,6 @@
 (* Dispatch.v — one entry point `run op arg` for every executable model and spec.
    Used identically by the extracted runner (coq/extract) and by `Eval vm_compute` re-evaluation. *)
-From Verif Require Import PyVal Rows Enc ComparableGen AsIndicesGen Order Sort SortSpec Dedup DedupSpec Basics SetOps SetSpec Joins Relational HashJoins Reductions GroupSpec.
+From Verif Require Import PyVal Rows Enc ComparableGen AsIndicesGen Order Sort SortSpec Dedup DedupSpec Basics SetOps SetSpec Joins Relational HashJoins Reductions GroupSpec Machines.
 Open Scope Z_scope.
 
 Definition run_cmp (arg : val) : val :=
@@ -399,6 +399,73 @@ Definition run_group_spec (arg : val) : val :=
   | _ => bad_input
   end.
 
+(* ---- machines ------------------------------------------------------------------------------------------- *)
+Definition enc_out (o : out) : val :=
+  match o with
+  | ORow r => vtuple [vstr "r"; vtuple r]
+  | OStop => vtuple [vstr "s"]
+  | ORaise e => vtuple [vstr "e"; enc_exn e]
+  end.
+Definition enc_trace (t : trace) : val := vlist (map (fun p => vtuple [vnat (fst p); enc_out (snd p)]) t).
+
+Definition dec_sop (v : val) : option sop :=
+  match v with
+  | VSeq _ [a] => match dec_Z a with Some 0 => Some NewIter | _ => None end
+  | VSeq _ [a; k] => match dec_Z a, dec_nat k with
+                     | Some 1, Some k' => Some (Next k')
+                     | Some 2, Some k' => Some (Close k')
+                     | _, _ => None
+                     end
+  | _ => None
+  end.
+Definition dec_sops (v : val) : option (list sop) := match v with VSeq _ l => dec_all dec_sop l | _ => None end.
+
+(* sv_run: (key|None, reverse, bs|None, cache, table, ops) *)
+Definition run_sv_run (arg : val) : val :=
+  match arg with
+  | VSeq _ [key; rev; bs; cache; t; ops] =>
+      match dec_bool rev, dec_opt dec_nat bs, dec_bool cache, dec_table t, dec_sops ops with
+      | Some rev', Some bs', Some cache', Some t', Some ops' =>
+          let c := {| sv_key := dec_key key; sv_reverse := rev'; sv_bs := bs'; sv_cache := cache' |} in
+          let '(_, _, tr) := Machines.mrun (sv_machine c) ops' (sv_init t') [] [] in enc_trace tr
+      | _, _, _, _, _ => bad_input
+      end
+  | _ => bad_input
+  end.
+
+(* cv_run: (n|None, table, ops) *)
+Definition run_cv_run (arg : val) : val :=
+  match arg with
+  | VSeq _ [n; t; ops] =>
+      match dec_opt dec_nat n, dec_table t, dec_sops ops with
+      | Some n', Some t', Some ops' =>
+          let '(s, _, tr) := Machines.mrun (cv_machine n') ops' (cv_init t') [] [] in
+          vtuple [enc_trace tr; vlist (map vtuple (cv_cache s))]
+      | _, _, _ => bad_input
+      end
+  | _ => bad_input
+  end.
+
+(* sv_history: (key|None, reverse, bs|None, cache, table, hops)  hop = (0, table) edit | (1,) pass *)
+Definition dec_hop (v : val) : option hop :=
+  match v with
+  | VSeq _ [a; t] => match dec_Z a, dec_table t with Some 0, Some t' => Some (HEdit t') | _, _ => None end
+  | VSeq _ [a] => match dec_Z a with Some 1 => Some HPass | _ => None end
+  | _ => None
+  end.
+Definition run_sv_history (arg : val) : val :=
+  match arg with
+  | VSeq _ [key; rev; bs; cache; t; VSeq _ hops] =>
+      match dec_bool rev, dec_opt dec_nat bs, dec_bool cache, dec_table t, dec_all dec_hop hops with
+      | Some rev', Some bs', Some cache', Some t', Some hops' =>
+          let c := {| sv_key := dec_key key; sv_reverse := rev'; sv_bs := bs'; sv_cache := cache' |} in
+          vlist (map (fun p => vtuple [vlist (map enc_out (fst p)); vint (snd p)])
+                     (sv_history c 1000%nat hops' (sv_init t')))
+      | _, _, _, _, _ => bad_input
+      end
+  | _ => bad_input
+  end.
+
 Definition run (op : list Z) (arg : val) : val :=
   if zs_eqb op "cmp" then run_cmp arg
   else if zs_eqb op "sort" then run_sort arg
@@ -423,4 +490,8 @@ Definition run (op : list Z) (arg : val) : val :=
   else if zs_eqb op "lookup" then run_lookup arg
   else if zs_eqb op "reduce" then run_reduce arg
   else if zs_eqb op "group_spec" then run_group_spec arg
+  else if zs_eqb op "const_true" then vbool true
+  else if zs_eqb op "sv_run" then run_sv_run arg
+  else if zs_eqb op "cv_run" then run_cv_run arg
+  else if zs_eqb op "sv_history" then run_sv_history arg
   else vtuple [vstr "!unknown-op"].
